@@ -1,0 +1,62 @@
+//go:build verif
+
+package common
+
+import (
+	"reflect"
+	"runtime"
+	"sort"
+)
+
+// Enumeration of the command registration tables for the verification harness (/verif, group
+// Valid, property C11). Built only with -tags verif; read-only.
+
+// VerifReg describes one registered command: the table it is in, its name and the Go symbol of
+// the registered function value (for closures returned by a wrapper this is "<wrapper>.funcN").
+type VerifReg struct {
+	Kind string // read | write | merge | mergewrite | internal
+	Name string
+	Func string
+}
+
+func verifFuncName(f interface{}) string {
+	fn := runtime.FuncForPC(reflect.ValueOf(f).Pointer())
+	if fn == nil {
+		return ""
+	}
+	return fn.Name()
+}
+
+// VerifRegs lists every command registered in the router, sorted by kind and name.
+func (r *CmdRouter) VerifRegs() []VerifReg {
+	var out []VerifReg
+	for n, f := range r.rcmds {
+		out = append(out, VerifReg{"read", n, verifFuncName(f)})
+	}
+	for n, f := range r.wcmds {
+		out = append(out, VerifReg{"write", n, verifFuncName(f)})
+	}
+	for n, f := range r.mergeCmds {
+		out = append(out, VerifReg{"merge", n, verifFuncName(f)})
+	}
+	for n, f := range r.mergeWriteCmds {
+		out = append(out, VerifReg{"mergewrite", n, verifFuncName(f)})
+	}
+	sort.Slice(out, func(i, j int) bool {
+		if out[i].Kind != out[j].Kind {
+			return out[i].Kind < out[j].Kind
+		}
+		return out[i].Name < out[j].Name
+	})
+	return out
+}
+
+// VerifRegs lists every internal (apply-side) command handler, sorted by name.
+func (r *SMCmdRouter) VerifRegs() []VerifReg {
+	var out []VerifReg
+	for n, f := range r.smCmds {
+		out = append(out, VerifReg{"internal", n, verifFuncName(f)})
+	}
+	sort.Slice(out, func(i, j int) bool { return out[i].Name < out[j].Name })
+	return out
+}
